@@ -176,16 +176,25 @@ def canon_emitted(e):
     return [99]
 
 
+def unit_code(received):
+    """what handle_event itself sent to individual units: 0 nothing, t+1 = OtherCancel to test t only"""
+    if not received:
+        return 0
+    if len(received) == 1 and received[0][0] is not None and received[0][1] == ["other_cancel"]:
+        return received[0][0] + 1
+    return 999
+
+
 def canon_step(st):
     if st["panic"]:
-        return [[1], [HS[st["hs"]], 0, 0]]
+        return [[1], [HS[st["hs"]], 0, 0, 0]]
     s = st["state"]
     return ([[0, opt_rank(s["cancel"]), s["running"], s["scripts_running"], s["signal_count"],
-              int(s["paused"])] + s["stats"], [HS[st["hs"]]] + RESP[st["resp"]]]
+              int(s["paused"])] + s["stats"], [HS[st["hs"]]] + RESP[st["resp"]] + [unit_code(st.get("received"))]]
             + [canon_emitted(e) for e in st["emitted"]])
 
 
-PANICKED_STEP = [[1], [0, 0, 0]]
+PANICKED_STEP = [[1], [0, 0, 0, 0]]
 
 
 def diff_seq(impl_steps, model_steps):
@@ -553,6 +562,12 @@ def oracle_c10(case, steps):
             ok = not resp.startswith("cancel")
         if not ok:
             return f"step {i}: response {resp} does not fit the announcement {step_cancels or step_kill}"
+        # a unit that reports a failed attempt while the run is being cancelled is told again (so that
+        # it does not sit out its retry delay); nothing else is sent to single units
+        want_unit = [[ev[1], ["other_cancel"]]] if ev[0] == "afwr" and prev_cancel is not None else []
+        if st.get("received", []) != want_unit:
+            return (f"step {i} ({ev}), cancel_state before = {prev_cancel}: units were individually sent "
+                    f"{st.get('received')}, expected {want_unit}")
         prev_cancel = cur
     return None
 
